@@ -20,11 +20,11 @@ def process_level(res, tier):
     cases = []
     for rf in ("linear", "sin"):
         for per in ("Ts", "rev"):
-            for outstep in ((0, 1, 3, 4, 12, 13) if tier == "thorough" else (0, 1, 3, 12)):
-                for amp, fmod in (((1.0, 4e4), (0.3, 1.7e5)) if tier == "thorough" else ((1.0, 4e4),)):
+            for outstep in ((0, 1, 3, 4, 12, 13) if vlib.wide(tier) else (0, 1, 3, 12)):
+                for amp, fmod in (((1.0, 4e4), (0.3, 1.7e5)) if vlib.wide(tier) else ((1.0, 4e4),)):
                     cases.append((rf, per, outstep, amp, fmod, 12))
         # runs longer than one synchrotron period (the record and the queue cover every step of the whole run)
-        for outstep in ((0, 7) if tier == "thorough" else (7,)):
+        for outstep in ((0, 7) if vlib.wide(tier) else (7,)):
             cases.append((rf, "Ts", outstep, 1.0, 4e4, 40))
     steps_per_ts = 16
 
@@ -61,7 +61,8 @@ def process_level(res, tier):
             E0, VRF = P["BeamEnergy"], P["AcceleratingVoltage"]
             Rb = C / (2 * math.pi * frev)
             V0 = 1.602e-19 * (E0 / 510998.9) ** 4 / (3 * 8.854187817e-12 * Rb)
-            sync = math.asin(V0 / math.sqrt(VRF * VRF - V0 * V0))
+            # the synchronous phase of a sinusoidal RF voltage V_RF sin(phi) that restores the radiation loss V0 per turn (what main() itself prints as such)
+            sync = math.asin(V0 / VRF)
         A = amp / 360.0 * 2 * math.pi
         for k, (ph, am) in enumerate(rows):
             want = sync + A * math.sin(2 * math.pi * fmod * dt * k)
@@ -76,7 +77,7 @@ def run(res, tier):
         "the private PRNG is not re-seeded: with noise on, the precomputed queue itself is read back (private member) and is the reference for kicks and records",
         "at most `steps` applies per object, as in main() (the queue is exactly `steps` long)",
         "process level: pure phase modulation (no noise): recorded phase = synchronous phase + A sin(2 pi f_mod dt k) with A in radians from degrees and dt the step time"]
-    c = _api.run(res, tier, ["C19_dynrf"])
+    c = _api.run(res, tier, ["C19_dynrf"], blocks=(1,))
     process_level(res, tier)
     res.states = max(1, int(res.coverage.get("states", 0)))
     res.transitions = max(1, int(res.coverage.get("transitions", 0)))
